@@ -81,6 +81,9 @@ var targets = []target{
 	{"oauthproxy.go", "checkAllowedEmails", "", ""},
 	{"pkg/ip/realclientip.go", "GetRealClientIP", "xForwardedForClientIPParser", "header:str"},
 	{"pkg/ip/realclientip.go", "getRemoteIP", "", ""},
+	{"pkg/sessions/persistence/ticket.go", "encodeTicket", "ticket", "id:str,secret:str"},
+	{"pkg/sessions/persistence/ticket.go", "decodeTicketID", "", ""},
+	{"pkg/sessions/persistence/ticket.go", "decodeTicketSecret", "", ""},
 	{"pkg/cookies/csrf.go", "HashOAuthState", "csrf", "OAuthState:optstr"},
 	{"pkg/cookies/csrf.go", "HashOIDCNonce", "csrf", "OIDCNonce:optstr"},
 	{"pkg/cookies/csrf.go", "CheckOAuthState", "csrf", "OAuthState:optstr"},
@@ -1180,7 +1183,11 @@ func (t *tr) stmt(o *out, ind int, s ast.Stmt) {
 			fail("return of %d values", len(x.Results))
 		}
 		var vs []string
-		for _, r := range x.Results {
+		for i, r := range x.Results {
+			if exprString(r) == "nil" && t.results[i] == kStr {
+				vs = append(vs, "([] : Str)") // a nil byte slice
+				continue
+			}
 			c, _ := t.expr(r)
 			vs = append(vs, c)
 		}
